@@ -52,21 +52,25 @@ func spaces(thorough bool) []chanmc.Space {
 	}
 	// 3-HTLC scripts (incl. an equal hash/amount/expiry duplicate pair) on all
 	// seven types: deviation-bounded around the eager schedule (quick), full (thorough).
-	dev := 2
+	devs := []int{2}
 	if thorough {
-		dev = -1
+		// first everything within 3 deviations of the eager schedule on all
+		// types, then the full interleavings for as long as the budget lasts
+		devs = []int{3, -1}
 	}
-	for ti, typ := range chanmc.AllTypes {
-		th := chanmc.Thresholds(typ, 6000, 200, 1300)
-		openerB := ti%2 == 1
-		out = append(out, chanmc.Space{Dev: dev, P: chanmc.Params{Type: typ, OpenerB: openerB, Script: []chanmc.Intent{
-			{By: 0, Amt: sat(30000, 0), Fate: "settle", Dup: 1}, {By: 0, Amt: sat(30000, 0), Fate: "fail", Dup: 1},
-			{By: 1, Amt: sat(th[3], 999), Fate: "settle"},
-		}}})
-		out = append(out, chanmc.Space{Dev: dev, P: chanmc.Params{Type: typ, OpenerB: !openerB, Fees: []int64{5000}, Script: []chanmc.Intent{
-			{By: 0, Amt: sat(th[1]-1, 0), Fate: "malformed"}, {By: 1, Amt: sat(th[2], 0), Fate: "settle"},
-			{By: 1, Amt: sat(th[3]-1, 500), Fate: "fail"},
-		}}})
+	for _, dev := range devs {
+		for ti, typ := range chanmc.AllTypes {
+			th := chanmc.Thresholds(typ, 6000, 200, 1300)
+			openerB := ti%2 == 1
+			out = append(out, chanmc.Space{Dev: dev, P: chanmc.Params{Type: typ, OpenerB: openerB, Script: []chanmc.Intent{
+				{By: 0, Amt: sat(30000, 0), Fate: "settle", Dup: 1}, {By: 0, Amt: sat(30000, 0), Fate: "fail", Dup: 1},
+				{By: 1, Amt: sat(th[3], 999), Fate: "settle"},
+			}}})
+			out = append(out, chanmc.Space{Dev: dev, P: chanmc.Params{Type: typ, OpenerB: !openerB, Fees: []int64{5000}, Script: []chanmc.Intent{
+				{By: 0, Amt: sat(th[1]-1, 0), Fate: "malformed"}, {By: 1, Amt: sat(th[2], 0), Fate: "settle"},
+				{By: 1, Amt: sat(th[3]-1, 500), Fate: "fail"},
+			}}})
+		}
 	}
 	return out
 }
